@@ -121,6 +121,7 @@ type RunConfig struct {
 	MapOrderAll  bool
 	MapOrderMax  int
 	SchedAll     bool
+	SchedYield   bool // explore every choice at explicit yields only (plus bounded preemption), deterministic elsewhere
 	Preempt      int
 	MaxConcretize int
 	Trace        bool
